@@ -10,7 +10,11 @@ RULE = ("DCOMPAT <sidW> <schemaW> <sidR> <schemaR> <def> <value> <expected>: pai
         "writer None, unknown fields ignored, unknown variant in an optional field None with every sibling intact) and consumes all bytes; for "
         "writers lacking a mandatory field the reader must fail (missing value where the position is absent). The fixed pairs f9o/f9n (index_only "
         "enum gains a variant), rgo/rgn (regular enum) and f10o/f10n (tagged optional at an index gap) are regression cases of the repaired "
-        "findings F9 / F10; no known class remains in this stream besides alias (F14, k= token computed by the generator).")
+        "findings F9 / F10; no known class remains in this stream besides alias (F14, k= token computed by the generator). S= (specification side): for every "
+        "case of the compatible-edit stream the model side evaluates the extracted DeriveMigrate.migrate — the reader's view that theorem C10_compat "
+        "(Props/C10.v, schema level: all nested definitions in two versions) promises — and expects the implementation to return exactly that value at "
+        "the end of the writer's bytes; for migrate = None (a variant the reader does not know outside every optional field) only the bytes are pinned "
+        "(the generator's !variant oracle checks the UnknownVariant class).")
 ASSUMPTIONS = ["an index never changes its type across versions; encodings (array/map) are not changed by an edit", "same grammar limits as C08"]
 
 def generate(tier, rng):
